@@ -29,6 +29,10 @@ void DataArray::ioRead(DataType dtype, void *data, const NDSize &count, const ND
     boost::optional<double> opt_origin = expansionOrigin();
 
     if (poly.size() || opt_origin) {
+        if (dtype == DataType::String) {
+            // the calibrated values are numbers: they cannot be delivered into text elements
+            throw std::invalid_argument("DataArray: calibrated (polynomial / expansion origin) data cannot be read as String");
+        }
         size_t data_esize = data_type_to_size(dtype);
         size_t nelms = check::fits_in_size_t(count.nelms(),
 			"Cannot apply polynom or origin transform. Buffer needed exceeds memory.");
